@@ -40,10 +40,10 @@ func structBattery(u *Universe) []Op {
 // domain, so the battery is tolerant there; on non-empty lists it is exact.
 
 type structRun struct {
-	h        *DBH
-	m        *Model
-	reopens  int
-	writes   int
+	h              *DBH
+	m              *Model
+	reopens        int
+	writes         int
 	sawSMoveAbsent bool
 }
 
